@@ -75,6 +75,9 @@ func allOps() []string {
 		for _, m := range []string{"D", "R", "L", "X"} {
 			o = append(o, m+":"+c.name)
 		}
+		if c.name == "m2" {
+			o = append(o, "Q:"+c.name) // renewal whose option 82 carries a remote-id but no circuit-id
+		}
 	}
 	return append(o, "T")
 }
@@ -122,6 +125,11 @@ func (w *world) apply(cfg config, op string) {
 			}
 		}
 		m.ServerID = w.d.ServerIP()
+	case "Q":
+		m.Type = dhcpv4.MessageTypeRequest
+		m.CIAddr = w.leased[c.name]
+		m.CircuitID = ""
+		m.RemoteID = "ri"
 	case "L":
 		m.Type = dhcpv4.MessageTypeRelease
 		m.CIAddr = w.leased[c.name]
@@ -464,6 +472,52 @@ func endsWithEND(o []byte) bool {
 	return false
 }
 
+// headerSweep: the reply is built in place, so the request's IP id / tos / fragment fields stay in the reply's
+// header and feed its checksum. One cached client, one DISCOVER, every value of the 16-bit id and of the tos byte
+// (positional basis of the checksum's inputs): every transmitted reply must carry a valid IP header checksum.
+func (e *env) headerSweep() {
+	synctest.Test(e.t, func(*testing.T) {
+		clearMaps(e.k)
+		l := e.loader()
+		w := newWorld(e.cfg, l)
+		l.SetServerConfig(srvMAC, w.d.ServerIP(), 2)
+		h := hist{"D:m1", "R:m1"}
+		for _, op := range h {
+			w.apply(e.cfg, op)
+		}
+		c := clients[0]
+		p := probe{"DISCOVER-header-sweep", dhcpv4.MessageTypeDiscover, "", "", false, false, "53first", 80, 5}
+		base := frame(c, dhcpPayload(w, c, p), 5)
+		bad := 0
+		try := func(set func(ip []byte), what string) {
+			f := append([]byte{}, base...)
+			ip := f[14:34]
+			set(ip)
+			binary.BigEndian.PutUint16(ip[10:], ipsum(ip))
+			verdict, out, err := e.k.Run("dhcp_fastpath_prog", f)
+			e.evals++
+			if err != nil || verdict != nativebpf.XDP_TX || len(out) < 34 {
+				return
+			}
+			e.tx++
+			oh := out[14:34]
+			if got, want := binary.BigEndian.Uint16(oh[10:]), ipsum(oh); got != want && bad < 3 {
+				bad++
+				e.viol("malformed-reply", "ip-checksum", fmt.Sprintf("probe=%s %s: IP header checksum %04x, correct value %04x", p.name, what, got, want), h, c, p)
+			}
+		}
+		for id := 0; id < 65536; id++ {
+			try(func(ip []byte) { binary.BigEndian.PutUint16(ip[4:], uint16(id)) }, fmt.Sprintf("ip.id=%#04x", id))
+		}
+		for tos := 0; tos < 256; tos++ {
+			try(func(ip []byte) { ip[1] = byte(tos); binary.BigEndian.PutUint16(ip[4:], 0xffff) }, fmt.Sprintf("ip.tos=%#02x id=0xffff", tos))
+		}
+		for _, fo := range []uint16{0x4000, 0x2000, 0x1fff, 0xffff} {
+			try(func(ip []byte) { binary.BigEndian.PutUint16(ip[6:], fo); binary.BigEndian.PutUint16(ip[4:], 0xfffe) }, fmt.Sprintf("ip.frag_off=%#04x", fo))
+		}
+	})
+}
+
 func opt(o []byte, code byte) []byte {
 	for i := 0; i+1 < len(o); {
 		if o[i] == 255 {
@@ -669,7 +723,12 @@ func TestCheck(t *testing.T) {
 		depth0 := depth
 		depth = len(base) + depth0 - 1
 		rec(base)
+		// ... and from a single relayed client holding a lease (room for renewals with odd option 82 contents + teardown)
+		base2 := hist{"D:m2", "R:m2"}
+		depth = len(base2) + depth0 - 1
+		rec(base2)
 		depth = depth0
+		e.headerSweep()
 		run.AddPart(report.Part{Name: "fastpath[" + cfg.name + "]", Engine: "A:history-tree + C:kernel-test-run", Bound: fmt.Sprintf("history depth<=%d over %d ops, %d probes x %d clients per state", depth, len(ops), len(ps), len(clients)),
 			States: e.states, Transitions: e.evals, Outcomes: e.tx, Exhaustive: true, Note: fmt.Sprintf("%d fast-path replies compared with the userspace server", e.tx)})
 		run.AddEvals(e.evals, e.tx)
